@@ -106,7 +106,8 @@ var cfgBaseNames = []string{"proj", "my-app", "app+1", "a&b", "x<y>", "it's", "t
 
 // refs that exist in every generated project (all at the single commit)
 // "20240915" (a date tag) and "deadbee" (a branch) are ref names made of hex digits only
-var cfgRefs = []string{"HEAD", "main", "feature/c++", "v1.0.0+build", "20240915", "deadbee"}
+// "init" (a branch) and "Init" (a tag) are spelled like the new-repository keyword INIT but are ordinary refs
+var cfgRefs = []string{"HEAD", "main", "feature/c++", "v1.0.0+build", "20240915", "deadbee", "init", "Init"}
 
 const (
 	cfgFirst    = "abcdefghijklmnopqrstuvwxyzABCDEFGHIJKLMNOPQRSTUVWXYZ0123456789_./"
@@ -375,7 +376,7 @@ func (r *cfgRunner) mkProject(dir string) error {
 		return err
 	}
 	for _, a := range [][]string{{"init", "-q", "-b", "main", "."}, {"add", "go.mod", "main.go"}, {"commit", "-q", "-m", "init"},
-		{"branch", "feature/c++"}, {"tag", "v1.0.0+build"}, {"tag", "20240915"}, {"branch", "deadbee"}} {
+		{"branch", "feature/c++"}, {"tag", "v1.0.0+build"}, {"tag", "20240915"}, {"branch", "deadbee"}, {"branch", "init"}, {"tag", "Init"}} {
 		if out, err := r.sh(dir, "git", a...); err != nil {
 			return fmt.Errorf("git %v: %v: %s", a, err, out)
 		}
